@@ -192,7 +192,8 @@ def pos_text(ap):
     out = []
     for a in ap:
         if a[0] == "W":
-            out.append("W" + ";".join(f"{tuple(g.x_positions)}x{tuple(g.y_positions)}" for g in a[1]))
+            # (coordinates, and for a filled grid its vacancies: a masked grid is another waypoint than the grid under it)
+            out.append("W" + ";".join(f"{tuple(g.x_positions)}x{tuple(g.y_positions)}" + (f"-vacant{sorted(g.vacancies)}" if hasattr(g, "vacancies") else "") for g in a[1]))
         else:
             out.append(f"S({a[1]},{a[4]},{a[5]})")
     return " ".join(out)
@@ -385,12 +386,23 @@ def _il(l):
 def spec_reading_cases(ctx):
     """device kernels that read the spec while being traced, evaluated on every route under two
     different specs in alternation within one process (a route must use the spec of THIS evaluation)"""
-    SA, SB = tweezer_prog.harness_spec(), second_spec()
+    from bloqade.geometry.dialects.grid import Grid
+    from bloqade.shuttle.arch import ArchSpec, Layout
+
+    def with_shared_names(S0, dx):
+        # "traps" names a static trap AND (another grid) a special grid; "aux" stays a static trap only
+        L0 = S0.layout
+        lay = Layout(dict(L0.static_traps), set(L0.fillable), set(L0.has_cz), set(L0.has_local),
+                     special_grid={**L0.special_grid, "traps": Grid.from_positions([300.0 + dx, 301.0 + dx], [40.0, 41.5])})
+        return ArchSpec(layout=lay, float_constants=dict(S0.float_constants), int_constants=dict(S0.int_constants))
+    SA, SB = with_shared_names(tweezer_prog.harness_spec(), 0.0), with_shared_names(second_spec(), 50.0)
     ksrc = ('@tweezer\ndef kz(p0: float):\n    z = spec.get_static_trap(zone_id="traps")\n'
             '    action.set_loc(grid.sub_grid(z, [0], [1]))\n    action.turn_on([0], [0])\n'
             '    action.move(grid.shift(grid.sub_grid(z, [0], [1]), p0 * spec.get_float_constant(constant_id="pitch"), 0.0))\n'
             # constants whose value is falsy (0.0 / 0): an offset of zero is still a defined constant
-            '    action.move(grid.shift(grid.sub_grid(z, [0], [1]), spec.get_float_constant(constant_id="origin"), 1.0 + spec.get_int_constant(constant_id="zero")))\n')
+            '    action.move(grid.shift(grid.sub_grid(z, [0], [1]), spec.get_float_constant(constant_id="origin"), 1.0 + spec.get_int_constant(constant_id="zero")))\n'
+            # a special grid that shares its name with a static trap
+            '    action.move(grid.sub_grid(spec.get_special_grid(grid_id="traps"), [1], [0]))\n')
     kz = kernels.define(ksrc)["kz"]
     n_ok = 0
     for rnd in range(2):
@@ -485,6 +497,32 @@ def branch_selected_cases(ctx, S):
                              f"played {what} {str(got[:2] if what == 'tones' else got[2])[:100]} but the selected device function has {str(want[:2] if what == 'tones' else want[2])[:100]}")
                 else:
                     ctx.nt(("branch-selected", label, c, dec, byparam))
+    # the ARGUMENT of the call comes out of a run-time branch: a zone, or a masked copy of the very same zone
+    gsrc = ('@tweezer\ndef kg(g: grid.Grid[Any, Any], dx: float):\n    action.set_loc(g)\n    action.turn_on(action.ALL, action.ALL)\n    action.move(grid.shift(g, dx, 0.0))\n')
+    kg = kernels.define(gsrc)["kg"]
+    from bloqade.shuttle.dialects.filled.types import FilledGrid
+    zone = S.layout.static_traps["traps"]
+    masked = FilledGrid.vacate(zone, [(0, 0), (1, 2)])
+    for c in (True, False):
+        sel = masked if c else zone
+        want = pos_text(tc.abstract_path(tc.run_impl(kg, (sel, 1.5), S)[1]))
+        for dec, plain in (("(arch_spec=S)", True), ("(arch_spec=S, fold=False)", True), ("", False), ("(arch_spec=S, aggressive=True)", True)):
+            src = (f"@move{dec}\ndef main(c: bool):\n    z = spec.get_static_trap(zone_id=\"traps\")\n    if c:\n        g = filled.vacate(z, [(0, 0), (1, 2)])\n    else:\n        g = z\n"
+                   "    f = schedule.device_fn(kg, [0, 1, 2, 3], [0, 1, 2])\n    f(g, 1.5)\n")
+            rep = {"branch_src": src, "c": c, "plain": plain, "pair": "argument: a zone or its masked copy"}
+            ctx.evaluations += 1
+            n += 1
+            try:
+                m = kernels.define(src, S=S, kg=kg)["main"]
+                st, evs, extra = events.run_events(m, (c,), S, plain=plain)
+            except Exception as e:
+                st, evs, extra = "err", [], f"{type(e).__name__}: {e}"
+            got = pos_text(tc.abstract_path(evs[0][1].path)) if st == "ok" and len(evs) == 1 and evs[0][0] == "play" else "no path: " + str(extra)[:80]
+            if got != want:
+                ctx.fail({"kind": "wrong-path", "branch_selected": "argument: a zone or its masked copy", "decorator": dec}, rep,
+                         f"@move{dec}, the grid argument of the call selected by a run-time branch (the zone, or the zone with masked sites), c={c}: played {got[:110]} but the selected grid gives {want[:110]}")
+            else:
+                ctx.nt(("branch-selected-argument", c, dec))
     ctx.count("device function selected by a run-time branch x 6 routes", n)
 
 
